@@ -273,15 +273,11 @@ def lookupParent (classes : List (ClassId × Entry)) : Option Parent → Option 
     | some e => some (some (p, e.core, e.required))
     | none => none
 
-/-- `get_base_info` re-reads the base's additional-properties setting with the CURRENT global default
-    and drops the base's `**kwargs` parameter accordingly; when that reading disagrees with the
-    base's frozen signature the class statement raises (KeyError 'kwargs', or ValueError
-    "duplicate parameter name: 'kwargs'" when the new class takes `**kwargs` itself) -/
-def baseSigClash (flags : Flags) (src : ClassSrc) : Option PInfo → Bool
-  | some (.inherit _, pc, _) =>
-    if pc.kwargs then !(pc.src.addProps.getD flags.addProps) && src.addProps.getD flags.addProps
-    else pc.src.addProps.getD flags.addProps
-  | _ => false
+/-- until /repo 5f45702 `get_base_info` re-read the base's additional-properties setting with the CURRENT global
+    default and dropped the base's `**kwargs` parameter accordingly; when that reading disagreed with the base's
+    frozen signature the class statement raised (KeyError 'kwargs' / "duplicate parameter name").  Since 5f45702 the
+    base's `**kwargs` parameter is always dropped and the class statement never raises for this reason. -/
+def baseSigClash (_flags : Flags) (_src : ClassSrc) : Option PInfo → Bool := fun _ => false
 
 def totalInlines (fs : List FieldSpec) : Nat := (fs.map (·.inlines)).sum
 
@@ -297,7 +293,8 @@ def elabClass (cfg : Config) (w : World) (src : ClassSrc) (pe : Option PInfo) : 
   let info := inheritInfo pe own
   { core := { src := src, defFlags := w.flags, fields := info.1,
               sigRequired := (fnames info.1).filter fun n => info.2.contains n,
-              kwargs := src.addProps.getD w.flags.addProps,
+              -- `getattr(clsobj, "_additionalProperties", default)`: own or INHERITED setting (since /repo 5f45702)
+              kwargs := (addPropsAttrOf src.addProps pe).getD w.flags.addProps,
               addPropsAttr := addPropsAttrOf src.addProps pe,
               simple := info.1.all (·.trustedOk),
               ancestors := ancestorsOf pe },
